@@ -43,6 +43,7 @@ type Candidate struct {
 	Replay     string // REPRODUCED / NOT-REPRODUCED / ...
 	WitnessRel string
 	Observed   []string // sampled paths: label=value as the engine computes them
+	Alts       []*Candidate // witnesses of the same obligation through other harness choices (tried if this one does not reproduce)
 }
 
 type ObStat struct {
@@ -675,15 +676,38 @@ func (ex *Exec) recordCandidate(id, kind, label string, fr *frame, p token.Pos, 
 	if ex.pendingKnown != "" {
 		key = id + "|known:" + ex.pendingKnown
 	}
-	if old := ex.Cands[key]; old != nil {
-		return
-	}
 	c := &Candidate{Obligation: id, Kind: kind, Label: label, Pos: ex.posOf(p), Model: m, Known: ex.pendingKnown,
 		Path: append([]int{}, ex.trail...)}
 	for _, d := range ex.draws {
 		c.Draws = append(c.Draws, ex.concreteDraw(d, m))
 	}
+	if old := ex.Cands[key]; old != nil {
+		// further witnesses of the same obligation that come through other choices of the harness (another function, another
+		// form of operand) are kept as alternates: when the first does not reproduce natively - the engine's model of a
+		// float or text operation was too loose on that path - one of them may, and a real finding is not lost behind it
+		sig := choiceSignature(c)
+		if len(old.Alts) >= 8 || sig == choiceSignature(old) {
+			return
+		}
+		for _, a := range old.Alts {
+			if choiceSignature(a) == sig {
+				return
+			}
+		}
+		old.Alts = append(old.Alts, c)
+		return
+	}
 	ex.Cands[key] = c
+}
+
+func choiceSignature(c *Candidate) string {
+	var sb strings.Builder
+	for _, d := range c.Draws {
+		if d.Op == "choose" || d.Op == "tag" {
+			fmt.Fprintf(&sb, "%s=%v;", d.Label, d.V)
+		}
+	}
+	return sb.String()
 }
 
 func (ex *Exec) concreteDraw(d Draw, m map[string]interface{}) Draw {
@@ -817,6 +841,12 @@ func (ex *Exec) resetGlobals() {
 	c := newCloner()
 	ex.globals = map[*ssa.Global]*value{}
 	for g, cell := range ex.baseGlobals {
+		// the range tables of package unicode are some ten thousand cells of constant data that no code writes: every
+		// path shares them instead of copying them (they are 2/3 of the cost of a short path otherwise)
+		if g.Pkg != nil && g.Pkg.Pkg.Path() == "unicode" {
+			ex.globals[g] = cell
+			continue
+		}
 		ex.globals[g] = c.cell(cell)
 	}
 	ex.inited = map[*ssa.Package]bool{}
